@@ -242,9 +242,10 @@ class _Break(Exception):
 
 
 class FuncVal(object):
-    def __init__(self, node, interp):
+    def __init__(self, node, interp, closure=None):
         self.node, self.interp = node, interp
         self.name = node.name
+        self.closure = closure      # scope of the enclosing function for a nested def (read when the body runs, like python cells)
 
 
 class Ctor(object):
@@ -553,7 +554,7 @@ class Frame(object):
             self.exec_block(st.orelse)
 
     def st_FunctionDef(self, st):
-        self.scope[st.name] = FuncVal(st, self.I)
+        self.scope[st.name] = FuncVal(st, self.I, closure=None if self.is_module else self.scope)
 
     def st_Global(self, st):
         pass
@@ -576,6 +577,9 @@ class Frame(object):
     def lookup(self, n):
         if n.id in self.scope:
             return self.scope[n.id]
+        cl = getattr(self.func, 'closure', None) if self.func is not None else None
+        if cl is not None and n.id in cl:
+            return cl[n.id]
         if n.id in self.I.g:
             return self.I.g[n.id]
         if n.id in ('True', 'False', 'None'):
